@@ -735,6 +735,11 @@ def check(P: Project, R: Report) -> None:
     from . import _chunks
 
     R.rule("R6", "line cutting: the SSE body is cut at the constant LF only (a trailing CR is stripped per line), and the streaming reader appends every non-empty chunk to its buffer")
+    for f in P.funcs_in(A.MOD_HTTP):
+        for l in walk_local(f.node):
+            if isinstance(l, ast.AsyncFor) and isinstance(l.iter, ast.Call) and call_name(l.iter).endswith(".aiter_lines"):
+                R.ob("R6", f"{f.qual}: body lines end at CR/LF only", False, f"{f.module.rel}:{l.lineno}",
+                     f"`{ast.unparse(l.iter)[:50]}` cuts lines wherever str.splitlines() does — U+2028, U+2029, U+0085, VT, FF included: a message whose JSON text carries one of them raw inside a string arrives as two `data:` fragments and is lost")
     for f, head in recognisers(P, A.MOD_HTTP):
         loops = [l for l in walk_local(f.node) if isinstance(l, (ast.AsyncFor,)) and "aiter" in ast.unparse(l.iter)]
         if loops:
